@@ -93,7 +93,11 @@ def check(ctx: Ctx) -> None:
                     if bind and n.id in bind and n.id in ("f", "Z_exp"):
                         return ast.parse(bind[n.id], mode="eval").body
                     return n
-            return ast.fix_missing_locations(N().visit(node))
+            out_ = ast.fix_missing_locations(N().visit(node))
+            if "proj(" in ast.unparse(out_):
+                from ..prov import inline_projections
+                out_ = inline_projections(model, fi0, out_)
+            return out_
 
         def T(e: ast.AST) -> str:
             return ast.unparse(RES(e))
